@@ -800,6 +800,18 @@ class SymTimeList:
         ctx().prove_in_path("time[-1]-on-a-non-empty-axis", st["tlen"] > 0)
         return SymQ("Time", SymNum(st["tlast_val"], "float"), SymUnit("Time", idx=st["tlast_unit"]))
 
+    def __setitem__(self, k, value):
+        # powertrain.time is the powertrain's own list: code that OVERWRITES the last recorded instant changes the axis
+        if k != -1:
+            raise EngineError("only time[-1] = ... is modelled")
+        st = self.env.state
+        ctx().prove_in_path("time[-1]-on-a-non-empty-axis", st["tlen"] > 0)
+        if not (isinstance(value, SymQ) and spec.BASE_KIND[value.kind] == "Time"):
+            raise EngineError(f"time[-1] = {value!r}: not a Time")
+        st["tlast_val"] = sym.term_of(value.si())
+        st["tlast_unit"] = unit_idx("Time", value.unit)
+        self.env.log.append(("overwrite-last-instant",))
+
 
 def _pt_isinstance(obj, cls):
     if isinstance(obj, AbsPowertrain):
